@@ -55,6 +55,10 @@ def main():
             feats.append("serde")
         if 'feature = "rayon"' in demotxt:
             feats.append("rayon")
+        cargo = "cargo"
+        if 'feature = "nightly"' in demotxt or "histogram_const" in demotxt:
+            feats.append("nightly")
+            cargo = "cargo +nightly"
         featarg = ("--features " + ",".join(feats)) if feats else ""
         tname = f"seed_demo_{variant}"
         demotxt_is_b = variant
@@ -63,10 +67,10 @@ def main():
         suite_ok = "FAILED" not in out_suite and "error" not in out_suite and out_suite.count("test result: ok") >= 3
         meta["ran"].append({"cmd": "cargo test --offline (patched scratch worktree)", "result": out_suite.strip().splitlines()})
         shutil.copy(demo, f"{wt}/tests/{tname}.rs")
-        rc_with, out_with = run(f"cargo test --offline {featarg} --test {tname} 2>&1 | tail -15", wt)
+        rc_with, out_with = run(f"{cargo} test --offline {featarg} --test {tname} 2>&1 | tail -15", wt)
         demo_fails_with = "test result: FAILED" in out_with
         run("git checkout -- .", wt)
-        rc_without, out_without = run(f"cargo test --offline {featarg} --test {tname} 2>&1 | tail -8", wt)
+        rc_without, out_without = run(f"{cargo} test --offline {featarg} --test {tname} 2>&1 | tail -8", wt)
         demo_passes_without = "test result: ok" in out_without and "FAILED" not in out_without
         os.remove(f"{wt}/tests/{tname}.rs")
         meta["ran"].append({"cmd": f"cargo test --offline {featarg} --test {tname} (with patch)", "failed_as_expected": demo_fails_with})
